@@ -42,10 +42,19 @@ def generate(ctx: Ctx, seed_offset=0):
     if ctx.pid == 'C08':
         fam_lookup = tlc.check(ctx, 'store/StoreGen', 'store/Gen_StoreLookup.cfg', sub=None if ctx.quick else {'D = 4': 'D = 5'})['emitted']
         # the lookup family under every identifier rendering (StoreGen.tla IdRenderings)
-        fam_lookup = [dict(b, idr=r) for b in fam_lookup for r in ('small', 'wide', 'zero_based')]
+        fam_lookup = [dict(b, idr=r) for b in fam_lookup for r in ('small', 'wide', 'zero_based', 'signed')]
     fam_rej = []
     if ctx.pid == 'C10':
         fam_rej = tlc.check(ctx, 'store/StoreGen', 'store/Gen_StoreRej.cfg', sub=None if ctx.quick else {'D = 3': 'D = 4'})['emitted']
+        # a history with an inconsistent-identifier addition also under the renderings that have the identifier 0
+        # (StoreGen.tla IdRenderings: 0 is an identifier, an unidentified store refuses it like any other)
+        more = []
+        for i, b in enumerate(fam_rej):
+            if any(s['ev']['op'] == 'addbad' and s['ev']['arg'] == 'id_inconsistent' for s in b['h']):
+                r = ('zero_based', 'signed')[i % 2]
+                if b.get('idr') != r:
+                    more.append(dict(b, idr=r))
+        fam_rej = fam_rej + more
     fam_lookup = fam_lookup + fam_rej
     ctx.extra['family_histories'] = {'in_memory_at_capacity': len(fam_mem), 'lookup_after_open_append': len(fam_lookup) - len(fam_rej), 'rejections_on_a_new_file': len(fam_rej)}
     return gen['emitted'] + fam_lookup, sim['emitted'], simcap['emitted'] + fam_mem
